@@ -5,7 +5,7 @@ package main
 // with a subscribe/teardown event log, subscribe/teardown counters and a live gauge.
 //
 //   case <id> kind=resub op=<Retry|RetryWithConfig|RepeatWith|While|DoWhile|Catch|OnErrorResumeNextWith|Concat>
-//        p=<ints> var=plain|ictx cond=<t/f string>|- ct=<tag base> mode=sync|async cut=-|<k>
+//        p=<ints> var=plain|ictx cond=<t/f string>|- ct=<tag base> mode=sync|async|tdrace cut=-|<k>
 //        cancel=-|pre|a<i>n<j>|a<i>t sub=<markers> srcs=<script>;<script>;…
 //   res  <id> trace=… log=s1,t1,… attempts=<n> live=<max alive at once> evals=<condition evaluations>
 //
@@ -43,6 +43,11 @@ type resubSource struct {
 	gated bool
 	gates map[int]chan struct{}
 	dones map[int]chan struct{}
+	// tdrace: drive the schedule in which an attempt's subscriber is unsubscribed (its teardown is
+	// running) at the moment the operator calls Wait — see playTdrace
+	tdrace   bool
+	release  chan struct{} // closes to let the pending teardown of the previous attempt finish
+	finished chan struct{} // closed when that teardown has been logged
 	// hook(att, j): before the j-th notification (0-based) of attempt att (1-based); j = -1: in the teardown
 	hook func(att, j int)
 }
@@ -66,6 +71,9 @@ func (s *resubSource) Observable() ro.Observable[int] {
 		}
 		s.mu.Unlock()
 		script := s.script(k)
+		if s.tdrace {
+			return s.playTdrace(ctx, dest, k, script)
+		}
 		play := func() {
 			for j, t := range script {
 				if s.hook != nil {
@@ -105,6 +113,56 @@ func (s *resubSource) Observable() ro.Observable[int] {
 			s.mu.Unlock()
 		}
 	})
+}
+
+// playTdrace: the schedule "the attempt's goroutine delivers its terminal after the teardown has been
+// registered and before the operator reaches Wait()". The window is a few instructions wide with an
+// ordinary source, so it is driven explicitly: the teardown is registered on the attempt's own
+// subscriber from inside the subscribe function, the attempt's goroutine plays the script, and the
+// subscribe function returns only once that goroutine is inside the teardown (subscription.go:104-150:
+// `done` is set, the finalizers are running). The teardown finishes (and is logged) when the harness
+// lets it: at the next subscription, or after the operator's Subscribe has returned.
+func (s *resubSource) playTdrace(ctx context.Context, dest ro.Observer[int], k int, script []Tok) ro.Teardown {
+	s.finishPending()
+	entered, release, finished := make(chan struct{}), make(chan struct{}), make(chan struct{})
+	dest.(ro.Subscription).Add(func() {
+		close(entered)
+		select {
+		case <-release:
+		case <-time.After(2 * time.Second):
+			// nobody went on while this teardown was running (Wait did wait): finish by ourselves
+		}
+		s.mu.Lock()
+		s.log = append(s.log, "t"+strconv.Itoa(k))
+		s.live--
+		s.torn++
+		s.mu.Unlock()
+		close(finished)
+	})
+	s.wg.Add(1)
+	go func() {
+		defer s.wg.Done()
+		for _, t := range script {
+			emit(dest, ctx, t)
+		}
+	}()
+	<-entered
+	s.mu.Lock()
+	s.release, s.finished = release, finished
+	s.mu.Unlock()
+	return nil
+}
+
+// finishPending lets the teardown that is still running (if any) complete and waits for its log entry
+func (s *resubSource) finishPending() {
+	s.mu.Lock()
+	release, finished := s.release, s.finished
+	s.release, s.finished = nil, nil
+	s.mu.Unlock()
+	if release != nil {
+		close(release)
+		<-finished
+	}
 }
 
 // ---------- case execution ----------
@@ -153,7 +211,10 @@ func runResubCase(c *Case) string {
 			return "res " + c.id + " unsupported"
 		}
 	}
-	if op == "Catch" && mode == "async" && cut > 0 {
+	if op == "Catch" && mode != "sync" && cut > 0 {
+		return "res " + c.id + " unsupported"
+	}
+	if mode == "tdrace" && (op == "Catch" || cut > 0 || c.get("cancel", "-") != "-") {
 		return "res " + c.id + " unsupported"
 	}
 	cancelAt := c.get("cancel", "-")
@@ -170,6 +231,7 @@ func runResubCase(c *Case) string {
 
 	src := &resubSource{outcomes: outcomes, async: mode == "async", gates: map[int]chan struct{}{}, dones: map[int]chan struct{}{}}
 	src.gated = src.async && op == "Catch"
+	src.tdrace = mode == "tdrace"
 	obs := src.Observable()
 
 	// loop condition: the i-th evaluation (by the index the operator passes, or by call count for
@@ -331,6 +393,7 @@ func runResubCase(c *Case) string {
 			<-done
 		}
 	}
+	src.finishPending()
 	src.wg.Wait()
 	if runaway {
 		return "res " + c.id + " harness-runaway"
@@ -476,6 +539,16 @@ func genResub(tier string, seed int64, only string) []*Case {
 		return out
 	}
 	for _, l := range lists {
+		if len(l) <= 2 && sample(2) {
+			// the Wait window (known finding): the next attempt starts while the previous teardown runs
+			add("Retry", "-", "plain", "-", "0", "tdrace", "-", "-", l)
+			add("RetryWithConfig", fmt.Sprintf("%d,0,%d", 1+r.Intn(3), r.Intn(2)), "plain", "-", "0", "tdrace", "-", "-", l)
+			add("RepeatWith", strconv.Itoa(1+r.Intn(3)), "plain", "-", "0", "tdrace", "-", "-", l)
+			add("While", "-", "plain", conds[r.Intn(len(conds))], "0", "tdrace", "-", "-", l)
+			add("DoWhile", "-", "plain", conds[r.Intn(len(conds))], "0", "tdrace", "-", "-", l)
+			add("OnErrorResumeNextWith", strconv.Itoa(r.Intn(4)), "plain", "-", "0", "tdrace", "-", "-", l)
+			add("Concat", strconv.Itoa(r.Intn(4)), "plain", "-", "0", "tdrace", "-", "-", l)
+		}
 		for _, mode := range modes {
 			// Retry: unlimited
 			for _, cut := range cuts() {
